@@ -71,7 +71,12 @@ func follow(sp followSpec) followOutcome {
 	}
 	mkPath := func(end *ssa.BasicBlock) []*ssa.BasicBlock {
 		var path []*ssa.BasicBlock
+		onPath := map[*ssa.BasicBlock]bool{}
 		for b := end; b != nil; b = parent[b] {
+			if onPath[b] {
+				break // the start block was re-entered through a back edge
+			}
+			onPath[b] = true
 			path = append([]*ssa.BasicBlock{b}, path...)
 			if len(path) > 64 {
 				break
